@@ -16,12 +16,12 @@ Proof.
 Qed.
 
 Section Equiv.
-Variable g : graph.
+Variables g g' : graph.      (* f maps the vertices of g to those of g'; g' = g for an automorphism *)
 Variable n : nat.
 
-(* an automorphism, as a function on 0..n-1 *)
+(* an isomorphism from g to g' (an automorphism when g' = g), as a function on 0..n-1 *)
 Definition autf (a : nat -> nat) : Prop :=
-  (forall u v, u < n -> v < n -> adjb g (a u) (a v) = adjb g u v) /\
+  (forall u v, u < n -> v < n -> adjb g' (a u) (a v) = adjb g u v) /\
   Permutation (map a (seq 0 n)) (seq 0 n).
 
 Lemma autf_lt : forall a u, autf a -> u < n -> a u < n.
@@ -56,7 +56,7 @@ Proof.
     rewrite H. f_equal. apply IH. intros x y Hx Hy. apply Hinj; simpl in *; tauto.
 Qed.
 
-Lemma certp_map : forall a p, autf a -> Permutation p (seq 0 n) -> certp g n (map a p) = certp g n p.
+Lemma certp_map : forall a p, autf a -> Permutation p (seq 0 n) -> certp g' n (map a p) = certp g n p.
 Proof.
   intros a p Ha HP. unfold certp, SearchValue.good. apply flat_map_ext_in'. intros j Hj. apply in_seq in Hj.
   pose proof (Permutation_length HP) as HL. rewrite seq_length in HL.
@@ -74,7 +74,7 @@ Proof.
   eapply perm_trans.
   { apply Permutation_map. apply filter_perm. apply Permutation_sym. exact HPa. }
   rewrite filter_map_comm, map_map.
-  rewrite (filter_ext_in (fun x => adjb g (a u) (a x) && (in_cell (lcells (map a p)) (a x) <? j))
+  rewrite (filter_ext_in (fun x => adjb g' (a u) (a x) && (in_cell (lcells (map a p)) (a x) <? j))
                          (fun v => adjb g u v && (in_cell (lcells p) v <? j))).
   - apply Permutation_refl'. apply map_ext_in. intros v Hv. apply filter_In in Hv. destruct Hv as [Hv _].
     apply in_seq in Hv. rewrite Hic by lia. reflexivity.
@@ -83,30 +83,20 @@ Qed.
 
 (* ---------------------------------------------------------------- the tree *)
 
-(* cb dominates the node Q: no leaf below Q has a greater certificate *)
-Definition dom (cb : list nat) (Q : part) : Prop :=
-  forall Q', rdesc g Q Q' -> target Q' = None -> cle (certp g n (verts Q')) cb.
-
-Lemma dom_mono : forall cb cb' Q, dom cb Q -> cle cb cb' -> dom cb' Q.
-Proof. intros cb cb' Q H Hc Q' HR HT. eapply cle_trans; [apply H; assumption|exact Hc]. Qed.
-
-Lemma dom_step : forall cb Q b c a v Q1, dom cb Q -> target Q = Some (b, c, a) -> In v c ->
-  refine g (indiv b c a v) = Some Q1 -> dom cb Q1.
-Proof. intros cb Q b c a v Q1 H HT Hv HR Q' HD HL. apply H; [|exact HL]. eapply rd_step; eassumption. Qed.
 
 (* a leaf-by-leaf correspondence below two nodes related by an automorphism *)
 Lemma rdesc_sim : forall f, autf f -> forall Q1 Q1', rdesc g Q1 Q1' -> forall Q2, sim f Q1 Q2 ->
   NoDup (verts Q1) -> incl (verts Q1) (seq 0 n) -> target Q1' = None ->
-  exists Q2', rdesc g Q2 Q2' /\ target Q2' = None /\ verts Q2' = map f (verts Q1').
+  exists Q2', rdesc g' Q2 Q2' /\ target Q2' = None /\ verts Q2' = map f (verts Q1').
 Proof.
   intros f Hf Q1 Q1' HR. induction HR as [P|P b c a v P' Q HT Hv HRf HR IH]; intros Q2 HS Hnd Hinc HL.
   - exists Q2. split; [apply rd_refl|].
-    assert (compat : forall u v, In u (seq 0 n) -> In v (seq 0 n) -> adjb g (f u) (f v) = adjb g u v).
+    assert (compat : forall u v, In u (seq 0 n) -> In v (seq 0 n) -> adjb g' (f u) (f v) = adjb g u v).
     { intros u v Hu Hv. apply in_seq in Hu. apply in_seq in Hv. apply (proj1 Hf); lia. }
     pose proof (target_sim f P Q2 HS) as HTs. rewrite HL in HTs.
     destruct (target Q2) as [[[b2 c2] a2]|] eqn:ET2; simpl in HTs; [contradiction|].
     split; [reflexivity|]. apply (discrete_sim f P Q2 HS). apply target_none. exact HL.
-  - assert (compat : forall u v, In u (seq 0 n) -> In v (seq 0 n) -> adjb g (f u) (f v) = adjb g u v).
+  - assert (compat : forall u v, In u (seq 0 n) -> In v (seq 0 n) -> adjb g' (f u) (f v) = adjb g u v).
     { intros u w Hu Hw. apply in_seq in Hu. apply in_seq in Hw. apply (proj1 Hf); lia. }
     assert (inj : forall u w, In u (seq 0 n) -> In w (seq 0 n) -> f u = f w -> u = w).
     { intros u w Hu Hw. apply in_seq in Hu. apply in_seq in Hw. apply (autf_inj f u w Hf); lia. }
@@ -122,8 +112,8 @@ Proof.
     pose proof (indiv_verts b c a fl v Hcnd Hv) as HIV. rewrite <- EP in HIV.
     assert (HIincl : incl (verts (indiv b c a v)) (seq 0 n)).
     { intros x Hx. apply Hinc. apply (Permutation_in _ HIV). exact Hx. }
-    pose proof (refine_sim f g g (seq 0 n) compat _ _ HIincl HI) as HRs. rewrite HRf in HRs.
-    destruct (refine g (indiv b2 c2 a2 (f v))) as [P2'|] eqn:ER2; simpl in HRs; [|contradiction].
+    pose proof (refine_sim f g g' (seq 0 n) compat _ _ HIincl HI) as HRs. rewrite HRf in HRs.
+    destruct (refine g' (indiv b2 c2 a2 (f v))) as [P2'|] eqn:ER2; simpl in HRs; [|contradiction].
     pose proof (refine_verts _ _ _ HRf) as HQv.
     destruct (IH P2' HRs) as (Q2' & I1 & I2 & I3).
     + apply (Permutation_NoDup (Permutation_sym (Permutation_trans HQv HIV))). exact Hnd.
@@ -145,16 +135,35 @@ Proof.
   apply (Permutation_NoDup (Permutation_sym (Permutation_trans HQv HIV))). exact Hnd.
 Qed.
 
+End Equiv.
+
+(* ---------------------------------------------------------------- domination *)
+
+Section Dom.
+Variable g : graph.
+Variable n : nat.
+
+(* cb dominates the node Q: no leaf below Q has a greater certificate *)
+Definition dom (cb : list nat) (Q : part) : Prop :=
+  forall Q', rdesc g Q Q' -> target Q' = None -> cle (certp g n (verts Q')) cb.
+
+Lemma dom_mono : forall cb cb' Q, dom cb Q -> cle cb cb' -> dom cb' Q.
+Proof. intros cb cb' Q H Hc Q' HR HT. eapply cle_trans; [apply H; assumption|exact Hc]. Qed.
+
+Lemma dom_step : forall cb Q b c a v Q1, dom cb Q -> target Q = Some (b, c, a) -> In v c ->
+  refine g (indiv b c a v) = Some Q1 -> dom cb Q1.
+Proof. intros cb Q b c a v Q1 H HT Hv HR Q' HD HL. apply H; [|exact HL]. eapply rd_step; eassumption. Qed.
+
 (* domination is transported along an automorphism relating two nodes *)
-Theorem sim_dom : forall f Q1 Q2 cb, autf f -> sim f Q1 Q2 -> Permutation (verts Q1) (seq 0 n) ->
+Theorem sim_dom : forall f Q1 Q2 cb, autf g g n f -> sim f Q1 Q2 -> Permutation (verts Q1) (seq 0 n) ->
   dom cb Q2 -> dom cb Q1.
 Proof.
   intros f Q1 Q2 cb Hf HS HP HD Q1' HR HL.
   assert (Hnd : NoDup (verts Q1)) by (apply (Permutation_NoDup (Permutation_sym HP)), seq_NoDup).
   assert (Hinc : incl (verts Q1) (seq 0 n)) by (intros x Hx; apply (Permutation_in _ HP); exact Hx).
-  destruct (rdesc_sim f Hf Q1 Q1' HR Q2 HS Hnd Hinc HL) as (Q2' & R2 & L2 & E2).
-  specialize (HD Q2' R2 L2). rewrite E2 in HD. rewrite certp_map in HD; [exact HD|exact Hf|].
-  eapply perm_trans; [apply rdesc_verts; eassumption|exact HP].
+  destruct (rdesc_sim g g n f Hf Q1 Q1' HR Q2 HS Hnd Hinc HL) as (Q2' & R2 & L2 & E2).
+  specialize (HD Q2' R2 L2). rewrite E2 in HD. rewrite (certp_map g g n) in HD; [exact HD|exact Hf|].
+  eapply perm_trans; [apply (rdesc_verts g); eassumption|exact HP].
 Qed.
 
-End Equiv.
+End Dom.
